@@ -126,6 +126,7 @@ impl SendRequest<RequestMessage<Vec<u8>>> for Up {
             }
         };
         let mut rcode = 0u16;
+        let mut ext_rcode = 0u8;
         match kind {
             "positive" => {
                 answer.push((qname.clone(), qtype, ttl1, mk(qtype)));
@@ -222,6 +223,17 @@ impl SendRequest<RequestMessage<Vec<u8>>> for Up {
                 rcode = 5;
                 additional.push((b"\x01m\x00".to_vec(), T_TXT, ttl1, mk(T_TXT)));
             }
+            "ext-error" => {
+                // an error whose code does not fit the header: the upper bits travel in the OPT record (BADVERS 16, 19 ...).
+                // The four bits in the header then read 0 or 3, and the message may well carry records
+                rcode = if marker % 2 == 0 { 0 } else { 3 };
+                ext_rcode = 1;
+                match marker % 3 {
+                    0 => answer.push((qname.clone(), qtype, ttl1.max(60), mk(qtype))),
+                    1 => authority.push((b"\x04test\x00".to_vec(), T_SOA, ttl1.max(60), soa_rdata(marker, ttl2.max(60)))),
+                    _ => additional.push((b"\x01m\x00".to_vec(), T_TXT, ttl1, mk(T_TXT))),
+                }
+            }
             "truncated" => {
                 flags |= 0x0200;
                 answer.push((qname.clone(), qtype, ttl1, mk(qtype)));
@@ -231,7 +243,7 @@ impl SendRequest<RequestMessage<Vec<u8>>> for Up {
             }
             _ => {}
         }
-        let with_opt = dnssec_ok || msg.opt().is_some();
+        let with_opt = dnssec_ok || msg.opt().is_some() || ext_rcode != 0;
         let mut m = w::header(h.id(), flags | rcode, [1, answer.len() as u16, authority.len() as u16, additional.len() as u16 + with_opt as u16]);
         m.extend_from_slice(&qname);
         m.extend_from_slice(&qtype.to_be_bytes());
@@ -240,7 +252,7 @@ impl SendRequest<RequestMessage<Vec<u8>>> for Up {
             m.extend(w::compose_record(o, *t, 1, *ttl, rd));
         }
         if with_opt {
-            m.extend_from_slice(&[0, 0, 41, 4, 208, 0, 0, if dnssec_ok { 0x80 } else { 0 }, 0, 0, 0]);
+            m.extend_from_slice(&[0, 0, 41, 4, 208, ext_rcode, 0, if dnssec_ok { 0x80 } else { 0 }, 0, 0, 0]);
         }
         seen.response = Some(m.clone());
         log.push(seen);
@@ -334,7 +346,7 @@ fn one_case(c: &mut Ctx, fam: &str, idx: u64, threads: bool) {
     let plan: Vec<(&'static str, u32, u32)> = (0..nnames)
         .map(|_| {
             let k = *rng.pick(&kinds);
-            let k = if k == "servfail" && rng.bool() { "refused" } else { k };
+            let k = if k == "servfail" && rng.bool() { if rng.bool() { "refused" } else { "ext-error" } } else { k };
             let t1 = *rng.pick(&[0u32, 1, 2, 5, 30, 59, 60, 61, 300, 3600, 86400, 1_000_000]);
             let t2 = *rng.pick(&[0u32, 1, 3, 10, 45, 60, 600, 7200, 100_000]);
             (k, t1, t2)
@@ -555,7 +567,8 @@ fn one_case(c: &mut Ctx, fam: &str, idx: u64, threads: bool) {
                 let urecs = records(um).unwrap_or_default();
                 let min_ttl = urecs.iter().map(|r| r.3).min().unwrap_or(0) as u64;
                 let upm = w::parse_message(um).unwrap();
-                let rcode = upm.flags & 0xf;
+                // (the whole code: the header's four bits and the eight in the OPT record, RFC 6891 6.1.3)
+                let rcode = (upm.flags & 0xf) | upm.records.iter().find(|r| r.rtype == T_OPT).map(|r| ((r.ttl >> 24) as u16) << 4).unwrap_or(0);
                 let has_answer = urecs.iter().any(|r| r.0 == 1 && r.2 == q.qtype);
                 let has_soa = urecs.iter().any(|r| r.0 == 2 && r.2 == T_SOA);
                 let has_ns = urecs.iter().any(|r| r.0 == 2 && r.2 == T_NS);
